@@ -491,6 +491,66 @@ func c05Main(args []string) int {
 			rep.Kinds = append(rep.Kinds, kr)
 		}
 	}
+	// An allegation with TWO recorded votes: the executed vote of each voter (the one with the lower and the one with
+	// the higher address; the votes are kept sorted) must stay refused in every encoding
+	if *only == "" || strings.HasPrefix(*only, "ALLEGATION_VOTE_TWO") {
+		for _, flow := range []string{"ALLEGATION_VOTE_TWO_VOTERS_FIRST", "ALLEGATION_VOTE_TWO_VOTERS_SECOND"} {
+			w := NewWorld(3, 5, 2)
+			rp := NewReplica(w.Genesis(), ReplicaOpts{NodeVal: w.Vals[0].Val})
+			rp.InitChain()
+			GAS = 1000000
+			n := 0
+			memo := func() string { n++; return fmt.Sprintf("c05av%d", n) }
+			in := &BlockIn{Absent: map[int]bool{}}
+			v0, v1, v2 := w.Vals[0], w.Vals[1], w.Vals[2]
+			for i := 0; i < 5; i++ {
+				rp.RunBlock(in)
+			}
+			rp.RunBlock(&BlockIn{Txs: [][]byte{txAllegation(v0, "c05two", v1.Val.Addr, 6, memo())}, Absent: map[int]bool{}})
+			a, b := v0, v2
+			if bytes.Compare(a.Val.Addr, b.Val.Addr) > 0 {
+				a, b = b, a
+			}
+			voter, other := a, b // FIRST: the voter with the lower address
+			if flow == "ALLEGATION_VOTE_TWO_VOTERS_SECOND" {
+				voter, other = b, a
+			}
+			base := txAllegationVote(voter, "c05two", 1, memo())
+			kr := c05Kind{Kind: flow, Base: hx(base)}
+			rp.BeginBlock(in)
+			v0v := rp.View()
+			res := rp.DeliverTx(base)
+			kr.BaseCode = res.Code
+			kr.BaseEffect = len(diffKeys(v0v, rp.View())) > 0
+			r2 := rp.DeliverTx(txAllegationVote(other, "c05two", 2, memo()))
+			rp.EndBlock()
+			rp.Commit()
+			if res.Code == 0 && r2.Code == 0 {
+				rp.RunBlock(in)
+				subs := append([]labMutant{{"identical", "same", base}}, reencodings(base, r)...)
+				rp.BeginBlock(in)
+				for _, sb := range subs {
+					c := rp.CheckTx(sb.Tx)
+					va := rp.View()
+					d := rp.DeliverTx(sb.Tx)
+					ch := diffKeys(va, rp.View())
+					sr := c05Sub{Name: sb.Name, SameParsed: sameParsed(sb.Tx, base), CheckCode: c.Code, CheckDup: strings.Contains(c.Log, "duplicated tx"),
+						Deliver: d.Code, Effect: len(ch) > 0, Tx: hx(sb.Tx)}
+					if len(ch) > 6 {
+						ch = ch[:6]
+					}
+					sr.Changed = ch
+					kr.Subs = append(kr.Subs, sr)
+				}
+				rp.EndBlock()
+				rp.Commit()
+			} else {
+				kr.BaseCode = 1
+			}
+			rp.Close()
+			rep.Kinds = append(rep.Kinds, kr)
+		}
+	}
 	// The executed transaction itself arrives in a non-canonical framing (a leading blank, a trailing newline, both):
 	// the replay record is keyed by the hash of the bytes AS RECEIVED (that is what Tendermint indexes), so a
 	// byte-identical copy of it must be recognised like any other
